@@ -300,6 +300,7 @@ func runC12(c *core.Ctx) {
 	c13Fills(c, pkg, "R7")
 	c13RefreshAll(c, pkg, "R8")
 	c13LowerBound(c, pkg, "R10")
+	c13WindowCheck(c, pkg, "R10")
 	c05Snapshot(c, pkg, "R11")
 	// ---- R9: no wrapping arithmetic on the requested size
 	for _, e := range []struct {
